@@ -26,7 +26,12 @@ func (p *Pather) LocalIA() addr.IA {
 	return p.localIA
 }
 
+// Paths returns the paths to dst that are currently known. A nil Pather, as
+// kept by a service that runs without a SCION daemon, knows none.
 func (p *Pather) Paths(dst addr.IA) []snet.Path {
+	if p == nil {
+		return nil
+	}
 	p.mu.Lock()
 	defer p.mu.Unlock()
 	paths, ok := p.paths[dst]
